@@ -212,6 +212,8 @@ def run(rep: vlib.Reporter, tier: str, seed: int) -> None:
     for i, spec in enumerate(specs):
         recs.append(one_spec(spec, rng, n_sched if i < n_gated_specs else 0))
     found = False
+    from harness import srctie      # source-text tie (Props/SrcTie.v): thread_worker / CfwManager.set_error regenerated from the source text = the completion events of Orch.worker_done
+    found = (not srctie.check(rep)) or found
 
     # T3
     wf_terms = [f"({cq_plan(r['plan'])}, {cq_adj(r['adj'])})" for r in recs]
@@ -418,6 +420,10 @@ def run(rep: vlib.Reporter, tier: str, seed: int) -> None:
 
 def replay(path: str) -> int:
     r = json.load(open(path))["replay"]
+    if r.get("kind") == "srctie":
+        from harness import srctie
+        srctie.replay(r, show=True)
+        return 0
     install()
     if r.get("kind") == "midpass":
         from harness import c01_midpass
